@@ -195,7 +195,6 @@ fn c13_profile(r: &mut Rng) -> Profile {
     p.bad_connack_pct = 0;
     // keep-alive traffic is cancelled too (cancellation takes no virtual time, so both runs agree on it)
     p.keepalive_choices = vec![0, 0, 1, 2, 10];
-    p.w_advance = 3;
     p.ack_modes = vec![AckMode::Immediate, AckMode::Hold, AckMode::Never];
     p.fail_pcts = vec![0];
     p.longform_pcts = vec![0, 100];
@@ -266,7 +265,7 @@ impl Check for C13 {
         if tier == Tier::Quick { 300 } else { 3000 }
     }
     fn required_counters(&self) -> Vec<&'static str> {
-        vec!["twins_compared", "cancelled_and_survived", "cancelled_and_reissued"]
+        vec!["twins_compared", "cancelled_and_survived", "cancelled_and_reissued", "requests_issued_with_pingreq_due"]
     }
     fn run(&self, _workload: usize, seed: u64, _index: u64, tier: Tier, verbose: bool) -> CaseOut {
         let mut out = CaseOut::default();
@@ -274,11 +273,7 @@ impl Check for C13 {
         let mut profile = c13_profile(&mut rng);
         let pol = det_policy(&mut rng);
         profile.hostile_io_pct = 0;
-        let cfg = {
-            let mut c = gen_cfg(&mut rng, &profile);
-            c.keepalive = 0;
-            c
-        };
+        let cfg = gen_cfg(&mut rng, &profile);
         // 1. generate the prefix adaptively (this run is only used to record the steps)
         let mut g = Gen::new(rng.next(), profile.clone());
         g.steps_left = rng.range(2, 14);
@@ -308,7 +303,16 @@ impl Check for C13 {
         }
         drop(pworld);
         let request = final_request(&mut rng, &mut g);
-        let prefix: Vec<Step> = plog.steps.clone();
+        let mut prefix: Vec<Step> = plog.steps.clone();
+        // with keep-alive on, half of the time the PINGREQ falls due right before the request, so
+        // that the cancelled call is (also) in the middle of keep-alive traffic
+        // (not while a PINGREQ is unanswered: the peer would look dead by the time of the request)
+        let ping_open = plog.probes.iter().rev().nth(1).and_then(|p| p.snap.as_ref()).is_some_and(|s| s.ping_timeout.is_some());
+        if cfg.keepalive > 0 && !ping_open && rng.chance(1, 2) {
+            let eff = cfg.keepalive as u64 * 1_000_000;
+            prefix.push(Step::Advance(eff - 5_000_000u64.min(eff / 2) + 1));
+            out.count("requests_issued_with_pingreq_due", 1);
+        }
         let run = |cancels: Vec<usize>| -> (RunLog, Shared, Vec<usize>) {
             let mut d = CancelTwin { prefix: prefix.clone().into(), request: request.clone(), cancels: cancels.into(), stage: 0, drain_left: 0, reissued: false, request_ops: vec![] };
             let (log, world) = run_case(&cfg, seed, &mut d, prefix.len() + 400);
